@@ -13,12 +13,13 @@ Definition cond_any : cond := Cond false true [].
 Definition cond_all : cond := Cond false false [].
 
 (* Condition::add: a non-negated condition with exactly one member is replaced by that member *)
+Definition unwrap_single (m : cmember) : cmember :=
+  match m with
+  | MCond (Cond false _ [x]) => x
+  | _ => m
+  end.
 Definition cond_add (c : cond) (m : cmember) : cond :=
-  let m' := match m with
-            | MCond (Cond false _ [x]) => x
-            | _ => m
-            end in
-  match c with Cond n a ms => Cond n a (ms ++ [m']) end.
+  match c with Cond n a ms => Cond n a (ms ++ [unwrap_single m]) end.
 
 Definition cond_add_option (c : cond) (m : option cmember) : cond :=
   match m with Some x => cond_add c x | None => c end.
@@ -64,6 +65,6 @@ Fixpoint to_simple_expr (c : cond) : expr :=
   end.
 End WithQ.
 
-Arguments cond_any {Q}. Arguments cond_all {Q}. Arguments cond_add {Q}. Arguments cond_add_option {Q}.
+Arguments unwrap_single {Q}. Arguments cond_any {Q}. Arguments cond_all {Q}. Arguments cond_add {Q}. Arguments cond_add_option {Q}.
 Arguments cond_not {Q}. Arguments expr_into_condition {Q}. Arguments holder_add {Q}.
 Arguments to_simple_expr {Q}. Arguments fold_binop {Q}.
